@@ -717,6 +717,12 @@ func TestVP_C26_Paths(t *testing.T) {
 		nu := rapid.IntRange(1, 4).Draw(t, "nupd")
 		for i := 0; i < nu; i++ {
 			raw := vpC26GenRaw().Draw(t, "upd")
+			// Update documents a leading "//" and "scheme://" as introducing an authority: keep the
+			// case in the path-only domain instead of losing it
+			if strings.HasPrefix(raw, "//") {
+				raw = "/" + strings.TrimLeft(raw, "/")
+			}
+			raw = strings.ReplaceAll(raw, "://", ":/")
 			vpC26CheckUpdate(t, u, raw)
 			if string(u.Host()) != "example.com" {
 				// a skipped/failed update cannot have changed it, but be safe for the next step
